@@ -24,8 +24,12 @@ fn val(i: u32) -> Vec<u8> { let mut v = vec![(i % 251) as u8; 40 + (i as usize *
 
 fn child(dir: &Path) {
     let nomt = Nomt::<Blake3Hasher>::open(opts(dir)).expect("child open");
+    // a second open inside the holder's own process must be refused too — and must not weaken the
+    // lock against other processes (locks that die with any closed descriptor of the file would)
+    if Nomt::<Blake3Hasher>::open(opts(dir)).is_ok() { println!("INPROC-OPENED"); }
     println!("READY"); std::io::stdout().flush().unwrap();
     for i in 0..u32::MAX {
+        if i % 7 == 3 { if Nomt::<Blake3Hasher>::open(opts(dir)).is_ok() { println!("INPROC-OPENED"); } }
         let s = nomt.begin_session(SessionParams::default());
         s.finish(vec![(key(i), KeyReadWrite::Write(Some(val(i))))]).unwrap().commit(&nomt).unwrap();
         println!("ACK {i}"); std::io::stdout().flush().unwrap();
@@ -57,11 +61,12 @@ fn main() {
         let mut rd = BufReader::new(ch.stdout.take().unwrap());
         let mut line = String::new();
         rd.read_line(&mut line).unwrap();
+        if line.starts_with("INPROC-OPENED") { failures.push(format!("round {round}: a second open inside the holder's process succeeded")); line.clear(); rd.read_line(&mut line).unwrap(); }
         assert!(line.starts_with("READY"), "child did not start: {line:?}");
         // let it make some commits
         let want_acks = 1 + ((seed.wrapping_mul(31) + round as u64 * 7) % 40) as u32;
         let mut last_ack: Option<u32> = None;
-        while last_ack.map_or(true, |a| a + 1 < want_acks) { line.clear(); if rd.read_line(&mut line).unwrap() == 0 { break; } if let Some(x) = line.trim().strip_prefix("ACK ") { last_ack = x.parse().ok(); } }
+        while last_ack.map_or(true, |a| a + 1 < want_acks) { line.clear(); if rd.read_line(&mut line).unwrap() == 0 { break; } if let Some(x) = line.trim().strip_prefix("ACK ") { last_ack = x.parse().ok(); } if line.starts_with("INPROC-OPENED") { failures.push(format!("round {round}: a second open inside the holder's process succeeded")); } }
         // while the child is alive: open must fail (3 attempts, the child keeps committing)
         for attempt in 0..3 {
             if let Ok(_n) = Nomt::<Blake3Hasher>::open(opts(&dir)) { failures.push(format!("round {round}: open #{attempt} succeeded while another process holds the directory")); }
